@@ -192,7 +192,7 @@ class Gcov:
         for g in glob.glob(os.path.join(self.objdir, "*.gcno")):
             shutil.copy2(g, self.out)
         self.env = dict(os.environ, GCOV_PREFIX=self.out, GCOV_PREFIX_STRIP=str(len(self.objdir.strip("/").split("/"))))
-        self.mismatch = 0
+        self.mismatch = []
 
     def run(self, src, args=()):
         rc, out, err = vlib.run([self.bin] + list(args), stdin=src.encode("utf-8", "surrogateescape"), timeout=TIMEOUT, env=self.env)
@@ -274,7 +274,7 @@ def run_cases(ctx, cases, rend, objdir, sites, audit, do_audit=True, gcov=None, 
         rc, out, err = observe(objdir, src, target)
         if gcov and rc == 1:
             if gcov.run(src) != rc:
-                gcov.mismatch += 1
+                gcov.mismatch.append(src)
         return c, src, rc, out, err
 
     results = vlib.pmap(one, cases, workers=16)
@@ -412,8 +412,15 @@ def run(ctx):
     ctx.cov["diagnostic_sites_unreached"] = unreached
     ctx.cov["site_measure"] = "message matching: a site counts as reached when an observed diagnostic matches its format string (sites sharing a text are indistinguishable)"
     if gcov:
-        if gcov.mismatch:
-            raise vlib.MachineryError("coverage build and plain build disagree on the exit status of %d cases" % gcov.mismatch)
+        # the coverage binary is slower and serialises on its .gcda files: on a loaded box some runs time out; repeat those alone
+        still = []
+        for src in gcov.mismatch:
+            rc2, _, _ = vlib.run([gcov.bin], stdin=src.encode("utf-8", "surrogateescape"), timeout=20 * TIMEOUT, env=gcov.env)
+            if rc2 != 1:
+                still.append({"rc": rc2, "source_tail": src[-200:]})
+        ctx.cov["coverage_build_retries"] = len(gcov.mismatch)
+        if still:
+            raise vlib.MachineryError("coverage build and plain build disagree on the exit status of %d cases, e.g. %s" % (len(still), json.dumps(still[:3])))
         ex = gcov.executed_lines()
         exact = [i for i in all_ids if i in ex]
         ctx.cov["exact_sites_reached"] = len(exact)
